@@ -676,6 +676,9 @@ func coerceToHashTable(arg Object) (result Object) {
 			if c, ok := e.(List); !ok || len(c) < 2 {
 				coerceNotPossible(ta, "hash-table")
 			} else {
+				if !Hashable(c[0]) {
+					coerceNotPossible(ta, "hash-table")
+				}
 				ht[c[0]] = c.Cdr()
 			}
 		}
